@@ -421,14 +421,14 @@ func runC06(c *RunCtx) {
 		c.Program(fmt.Sprintf("wuf/%d", v), func(p *Prog) {
 			cfg := drawC06(p.Rng, "wuf")
 			p.Explore(func(pl Plan) *Result { return epC06(c, cfg) },
-				ExploreOpts{Base: 3, K: c.Q(2, 5), Funcs: funcs, Pairs: c.Q(20, 150), MaxCases: c.Q(250, 3000)})
+				ExploreOpts{Base: 3, Noise: c.Q(20, 100), K: c.Q(2, 5), Funcs: funcs, Pairs: c.Q(20, 150), MaxCases: c.Q(250, 3000)})
 		})
 	}
 	for v := 0; v < c.Q(64, 240); v++ {
 		c.Program(fmt.Sprintf("barrier/%d", v), func(p *Prog) {
 			cfg := drawC06(p.Rng, "barrier")
 			p.Explore(func(pl Plan) *Result { return epC06(c, cfg) },
-				ExploreOpts{Base: 3, K: c.Q(2, 5), Funcs: funcs, Pairs: c.Q(20, 150), MaxCases: c.Q(250, 3000)})
+				ExploreOpts{Base: 3, Noise: c.Q(20, 100), K: c.Q(2, 5), Funcs: funcs, Pairs: c.Q(20, 150), MaxCases: c.Q(250, 3000)})
 		})
 	}
 	for v := 0; v < c.Q(32, 96); v++ {
